@@ -21,6 +21,14 @@ def neq8(x, y):
     return z3._t(x) != z3._t(y)
 
 
+def same_repr(a, b):
+    def is_bv(x):
+        return z3.is_expr(x) and x.sort == z3.BV
+    ka = {is_bv(x) for x in a if not isinstance(x, int)}
+    kb = {is_bv(x) for x in b if not isinstance(x, int)}
+    return len(ka | kb) <= 1
+
+
 class IdealFn:
     def __init__(self, vm, name, out_len, injective=True, arity=1, bv=True):
         self.vm, self.name, self.out_len, self.injective, self.arity = vm, name, out_len, injective, arity
@@ -50,7 +58,9 @@ class IdealFn:
             # random-oracle freshness: the output for a new argument differs from every value of its length that
             # exists at this point of the path (harness-created byte strings and earlier outputs of any ideal function)
             for other in vm.universe:
-                if len(other.a) == self.out_len:
+                if len(other.a) == self.out_len and same_repr(other.a, out.a):
+                    # (values in the other representation - Int bytes vs bit-vector bytes - are left unconstrained:
+                    # mixing the two theories stalls the solver; a weaker assumption is still sound)
                     vm.add_pc(z3.Or([neq8(x, y) for x, y in zip(other.a, out.a)]))
             vm.universe.append(out)
         tab.append((args, out))
